@@ -21,6 +21,8 @@ def differs(action):
 
 
 def is_lower_closure(facts, clo):
+    if clo[0] == "fn":
+        return clo[1].endswith("<impl char>::to_lowercase")
     if clo[0] != "closure" or clo[1] not in facts.bodies:
         return False
     t = norm(facts.body(clo[1]).resolve_local(0))
@@ -460,6 +462,17 @@ def guardxform_quantified(ctx, facts, key, rule="GUARDXFORM"):
         act = path_action(facts, body, o, pe)
         n += 1
         tag = "%s path %s" % (key, "-".join(str(b) for b in o["path"][:8]))
+        if act.startswith("delegate:"):
+            # the work is done by another local function on a copy of the text: that function must itself be a lower-caser
+            # (its obligations are emitted here, once), and then this path lower-cases completely
+            dk = act.split(":", 1)[1]
+            seen = getattr(ctx, "_gx_seen", None)
+            if seen is None:
+                seen = ctx._gx_seen = set()
+            if (dk, rule, id(facts)) not in seen:
+                seen.add((dk, rule, id(facts)))
+                guardxform_obligations(ctx, facts, dk, rule)
+            act = "unicode_lower"
         if unknown or act.startswith("?"):
             ctx.ob(rule, "%s: guards and action understood" % tag, False, fn=key, site=site, detail="unknown guards %s; action %s" % (unknown, act))
             continue
@@ -487,6 +500,10 @@ def path_action(facts, body, o, pe):
                 kinds.add("ascii_lower")
             elif e[1].endswith("deref_mut") or e[1] in ("std::iter::Iterator::any", "std::iter::Iterator::all", "std::iter::Iterator::find"):
                 continue
+            elif e[2][0] in ("var", "local") and e[1].split("::")[-1] in ("any", "all", "find", "next", "position"):
+                continue  # advancing a local iterator
+            elif e[1] in facts.bodies and e[2][0] == "var" and e[2][2] == "" and _var_is_copy_of_subject(body, e[2][1]):
+                kinds.add("delegate:" + e[1])  # the copy of the text is handed to another local lower-caser
             else:
                 kinds.add("?effect " + e[1])
         elif e[0] == "store":
@@ -501,6 +518,10 @@ def path_action(facts, body, o, pe):
         kinds.add("unicode_lower")
     elif subject_ok(rv) or rv[0] == "var" and subject_ok(strip_conv(rv[2])) or rv[0] == "const" or rv == ("agg", ("tuple",), ()) or rv[0] == "call" and is_conv_of_subject(rv):
         pass
+    elif rv[0] == "var" and (rv[2][0] == "conv" and strip_conv(rv[2]) == ("arg", 1) or strip_conv(rv[2])[0] == "call" and is_conv_of_subject(strip_conv(rv[2]))):
+        pass  # the (possibly modified in place) copy of the text
+    elif rv[0] == "call" and rv[1].endswith("::make_ascii_lowercase"):
+        pass  # `=> s.make_ascii_lowercase()` as the value of a unit function (the effect itself is counted above)
     else:
         kinds.add("?return " + nshow(rv)[:60])
     if not kinds:
@@ -508,6 +529,15 @@ def path_action(facts, body, o, pe):
     if len(kinds) == 1:
         return next(iter(kinds))
     return "?mixed " + ",".join(sorted(kinds))
+
+
+def _var_is_copy_of_subject(body, n):
+    t = body.resolve_local(n)
+    if t[0] != "var":
+        return False
+    n = norm(t[2], keep_conv=True)
+    init = strip_conv(n)
+    return (n[0] == "conv" and init == ("arg", 1)) or (init[0] == "call" and is_conv_of_subject(init))
 
 
 def is_conv_of_subject(rv):
